@@ -24,11 +24,16 @@ class Canary:
 
 def src_mutator(old, new, count=1):
     """in-memory source mutation of the EXTRACTED module (never written to /repo)"""
+    olds = old if isinstance(old, (list, tuple)) else [old]
+    news = new if isinstance(new, (list, tuple)) else [new]
+
     def mutate(tree):
         src = ast.unparse(tree)
-        if old not in src:
-            raise LookupError("canary pattern %r not present in current source" % old)
-        return ast.parse(src.replace(old, new, count))
+        for o, n in zip(olds, news):
+            if o not in src:
+                raise LookupError("canary pattern %r not present in current source" % o)
+            src = src.replace(o, n, count)
+        return ast.parse(src)
     return mutate
 
 
@@ -185,7 +190,9 @@ class C03(Prop):
 
     def links(self, ctx):
         from vcore import links_gen
-        return [link_binning] + links_gen.links_for("C03")
+        from vcore.links_models import link_models
+        from vcore import links_misc
+        return [link_binning, link_models, links_misc.link_pipeline] + links_gen.links_for("C03")
 
     def canaries(self, ctx):
         t = BIN + "deterministic_choice"
@@ -305,4 +312,316 @@ class C08(Prop):
                 table_canary("ws-before-newline-rule-removed", edit_pattern("ExperimentLexer", "ws", r"\s+", r"\n+"), r"lex:main~.*(whitespace.covered|error)")]
 
 
-PROPS = {c.id: c() for c in (C03, C08, C10, C11, C16, C18)}
+A_SLY_YACC = ("assumed contract of sly.yacc: for a grammar without unresolved conflicts parse() returns the value of the actions over the unique parse tree selected by the "
+              "precedence rules, calls self.error at the first syntax error and performs recovery only after error() returns (bounded differential vs the reference parser)")
+A_PYDANTIC = "assumed pydantic-v1 validation model (spec/pydantic_model.py), cross-checked against the real classes on an exemplar pool on every run"
+A_SUBST = ("A-subst: a parenthesised expression, a literal token, a non-keyword NAME and a run of complete statement lines at a deeper uniform indentation can replace a placeholder "
+           "of the same kind without changing the rest of CPython's parse tree (up to CPython's nesting limits)")
+A_EXEC = "A-exec: exec(compile(src)) defines the functions ast.parse(src) contains; CPython evaluates Compare/BoolOp/UnaryOp/If/Return/Raise/Call with their documented semantics"
+A_REPR = "assumed: ast.literal_eval(repr(x)) == x with the same type for int, finite float and str; str(list) renders each member with repr"
+A_ORACLE = "template obligations are decided per constructor case by CPython's own parser on instantiated templates (backend template-oracle): deductive in structure (all paths, induction hypothesis as callee contract), sampled in the hole contents"
+TB_GEN = ("CPython parser (parse oracle)", "z3 (strings)", "structural executor pyvc/struct.py", "spec D / Lex_ref / G_ref written from the documentation")
+
+
+def _lex():
+    from vcore.links_lex import link_lexer, link_lexer_fns
+    return [link_lexer, link_lexer_fns]
+
+
+def _gram():
+    from vcore.links_gram import link_grammar
+    return [link_grammar]
+
+
+def _models():
+    from vcore.links_models import link_models
+    return [link_models]
+
+
+def _gen():
+    from vcore.links_gen import link_generator
+    return [link_generator]
+
+
+def _misc(*names):
+    from vcore import links_misc
+    return [getattr(links_misc, n) for n in names]
+
+
+def gen_canary(name, old, new, expect):
+    def build(ctx):
+        from vcore.links_gen import link_generator
+        try:
+            mut = src_mutator(old, new)
+            from pyvc.contract import load_module
+            load_module("pyab_experiment.codegen.python.python_generator", mut)
+        except LookupError as e:
+            ctx.notes.append("canary %s skipped: %s" % (name, e))
+            return [Obl("canary:%s/not-applicable" % name, "generator", "canary", str(e), status=REFUTED, backend="n/a")]
+        obls = link_generator(ctx, mutate=mut, tag="~" + name)
+        return [o for o in obls if re.search(expect, o.id)]
+    return Canary(name, build, expect + "|not-applicable")
+
+
+def gram_canary(name, old, new, expect):
+    def build(ctx):
+        from vcore.links_gram import link_grammar
+        try:
+            mut = src_mutator(old, new)
+            from pyvc.contract import load_module
+            load_module("pyab_experiment.language.grammar", mut)
+        except LookupError as e:
+            ctx.notes.append("canary %s skipped: %s" % (name, e))
+            return [Obl("canary:%s/not-applicable" % name, "grammar", "canary", str(e), status=REFUTED, backend="n/a")]
+        obls = link_grammar(ctx, mutate=mut, tag="~" + name)
+        return [o for o in obls if re.search(expect, o.id)]
+    return Canary(name, build, expect + "|not-applicable")
+
+
+def gram_table_canary(name, edit, expect):
+    """in-memory mutation of the DUMPED parser tables"""
+    def build(ctx):
+        import copy
+        from vcore.links_gram import link_grammar
+        from vcore.links_lex import _MiniCtx
+        from vcore import native
+        T0 = ctx.memo("parser_tables", lambda: native.one({"cmd": "parser_tables"}))
+        T = copy.deepcopy(T0)
+        edit(T)
+        c2 = _MiniCtx()
+        c2.cache["parser_tables"] = T
+        c2.reg, c2.tier = ctx.reg, ctx.tier
+        obls = link_grammar(c2, tag="~" + name)
+        return [o for o in obls if re.search(expect, o.id)]
+    return Canary(name, build, expect + "|not-applicable")
+
+
+def model_canary(name, old, new, expect):
+    def build(ctx):
+        from vcore.links_models import link_models
+        try:
+            mut = src_mutator(old, new)
+            from pyvc.contract import load_module
+            load_module("pyab_experiment.data_structures.syntax_tree", mut)
+        except LookupError as e:
+            ctx.notes.append("canary %s skipped: %s" % (name, e))
+            return [Obl("canary:%s/not-applicable" % name, "models", "canary", str(e), status=REFUTED, backend="n/a")]
+        obls = link_models(ctx, mutate=mut, tag="~" + name)
+        return [o for o in obls if re.search(expect, o.id)]
+    return Canary(name, build, expect + "|not-applicable")
+
+
+class C01(Prop):
+    id, title = "C01", "Assignment is a pure, process-independent function of source and inputs"
+    min_obligations = 40
+    trusted_base = ("z3", "structural executor", "CPython parser (parse oracle)", "effect scan (syntactic frame analysis of sly and first-party modules)",
+                    "assumed: hashlib/str.encode/int/str/repr/sorted are hash-seed-, locale- and cwd-independent; sly's table construction is semantically deterministic")
+    assumptions = (A_STR, A_MD5, A_MODULAR, A_INDUCTION, A_ORACLE,
+                   "determinism is proved as 'no havoc term in any result' + frame obligations; process independence additionally rests on the assumed process-independence of the externals",
+                   "cross-process transcripts are a bounded stand-in")
+    explanation = "havoc-free result terms + frames on binning, recompile, __call__, parse_source; sorted-set discipline and key-is-an-expression in the generator; confinement scan; cross-process transcripts (bounded)"
+
+    def links(self, ctx):
+        return [link_binning, link_evaluator] + _gen() + _misc("link_sly_confinement", "link_transcripts")
+
+    def canaries(self, ctx):
+        return [gen_canary("unsorted-local-vars", "return sorted(self._local_vars)", "return list(self._local_vars)", r"local_vars/==sorted|deterministic-order|generate_key_definition/.*\["),
+                contract_canary("hash-builtin", BIN + "deterministic_proba", "high_bits = int(digest[:8], 16)", "high_bits = hash(input_string) % 4294967296", r"frame\.no-havoc|ensures\.scheme"),
+                contract_canary("module-level-lexer", "pyab_experiment.utils.wraper_functions.parse_source", ["lexer = ExperimentLexer()\n", "def parse_source("], ["lexer = _LEXER\n", "_LEXER = ExperimentLexer()\n\n\ndef parse_source("], r"ownership")]
+
+
+class C02(Prop):
+    id, title = "C02", "Compiled routing equals the DSL's if / else-if / else and operator semantics"
+    min_obligations = 150
+    trusted_base = TB_GEN + ("rxvc DFA procedure", "sly.lex / sly.yacc (assumed contracts)", "pydantic (assumed model)")
+    assumptions = (A_SLY_LEX, A_LEX_INDUCTION, A_RX, A_SLY_YACC, A_PYDANTIC, A_SUBST, A_EXEC, A_ORACLE, A_INDUCTION,
+                   "PyEval o D = Route holds by construction of D (Compare/BoolOp/UnaryOp/If nodes with Python's documented semantics); sanity-tested by the bounded pipeline differential")
+    explanation = "five links: lexer tables == documented scanner; grammar tables and 43 action bodies == attribute grammar; models keep values; every generator constructor case parses to D(node); exec semantics assumed"
+
+    def links(self, ctx):
+        return _lex() + _gram() + _models() + _gen() + _misc("link_pipeline")
+
+    def canaries(self, ctx):
+        from vcore.links_lex import table_canary, edit_move_before
+        return [table_canary("gt-before-ge", edit_move_before("ExperimentLexer", "KW_GE", "KW_GT"), r"lex:main~.*KW_G"),
+                gen_canary("and-or-swapped", "case BooleanOperatorEnum.AND:\n                return 'and'", "case BooleanOperatorEnum.AND:\n                return 'or'", r"_generate_op/BooleanOperatorEnum.AND|Recursive.AND|injective"),
+                gen_canary("elif-as-if", "{self.indent()}elif {predicate}: ", "{self.indent()}if {predicate}: ", r"_generate_conditionals~?.*ELIF|_generate_conditionals/ELIF"),
+                gen_canary("true-branch-not-indented", "self._indent_depth += 1\n                true_branch_stmt", "self._indent_depth += 0\n                true_branch_stmt", r"_generate_conditionals"),
+                gram_canary("term0-term1-swapped", "left_term=p.term0, logical_operator=p.logical_op, right_term=p.term1", "left_term=p.term1, logical_operator=p.logical_op, right_term=p.term0", r"action/predicate -> term logical_op term"),
+                gram_canary("and-built-as-or", "boolean_operator=BooleanOperatorEnum.AND", "boolean_operator=BooleanOperatorEnum.OR", r"action/predicate -> predicate KW_AND predicate"),
+                gram_table_canary("precedence-rows-swapped", lambda t: t["precedence"].update({"KW_OR": ["left", 2], "KW_AND": ["left", 1]}), r"table/precedence"),
+                gram_table_canary("and-right-associative", lambda t: t["precedence"].update({"KW_AND": ["right", 2]}), r"table/precedence"),
+                gram_table_canary("dangling-production", lambda t: t["productions"].append({"number": 99, "name": "predicate", "rhs": ["term"], "prec": ["right", 0], "names": ["term"], "func": None, "lineno": None}), r"table/productions")]
+
+
+class C03f(C03):
+    pass
+
+
+class C05(Prop):
+    id, title = "C05", "Literals reach run time with their exact value and type"
+    min_obligations = 60
+    trusted_base = TB_GEN + ("rxvc DFA procedure", "pydantic (assumed model)", "assumed: float()/int() of a decimal lexeme are value-exact; repr round-trips")
+    assumptions = (A_INT, A_SLY_LEX, A_RX, A_SLY_YACC, A_PYDANTIC, A_REPR, A_SUBST, A_ORACLE,
+                   "stated domain: integer literals up to CPython's 4300-digit int<->str limit; decimal literals that denote finite doubles")
+    explanation = "token functions (value conversions), literal grammar actions, model case analysis with the real annotations, raw-quoting obligations and literal oracle cases in the generator"
+
+    def links(self, ctx):
+        return _lex() + _gram() + _models() + _gen() + _misc("link_pipeline")
+
+    def canaries(self, ctx):
+        return [model_canary("smart-union-removed", "smart_union = True\n\nclass RecursivePredicate", "smart_union = False\n\nclass RecursivePredicate", r"model~.*TerminalPredicate"),
+                gen_canary("hand-quoting", "return repr(term)", "return f\"'{term}'\"", r"_generate_term/str"),
+                gram_canary("minus-dropped", "return -p.NON_NEG_INTEGER", "return p.NON_NEG_INTEGER", r"action/literal -> MINUS NON_NEG_INTEGER"),
+                contract_canary("string-slice-slip", "pyab_experiment.language.lexer.ExperimentLexer.STRING_LITERAL", "t.value[1:-1]", "t.value[1:]", r"ensures\.value==characters")]
+
+
+class C06(Prop):
+    id, title = "C06", "Text outside the grammar is rejected, never silently repaired"
+    min_obligations = 60
+    trusted_base = ("rxvc DFA procedure", "z3", "sly.lex / sly.yacc (assumed contracts)")
+    assumptions = (A_SLY_LEX, A_LEX_INDUCTION, A_RX, A_SLY_YACC,
+                   "with error() raising in both the lexer and the parser and no `error` production, sly's panic-mode recovery is dead code, so a returned AST derives the WHOLE token sequence in G_ref (uses the assumed sly contract)",
+                   "judgment call: an unterminated /* comment extends to the end of the text")
+    explanation = "lexer error-equivalence with the documented scanner + error callbacks proved to raise on every path + production set == G_ref, no conflicts, no error productions + recompile turns a None parse into ParseError"
+
+    def links(self, ctx):
+        return _lex() + _gram() + [link_evaluator] + _misc("link_pipeline")
+
+    def canaries(self, ctx):
+        from vcore.links_lex import table_canary, edit_pattern
+        return [contract_canary("lexer-error-skips", "pyab_experiment.language.lexer.ExperimentLexer.error", "raise LexError(", "print(", r"ensures\.illegal-character"),
+                contract_canary("parser-error-prints", "pyab_experiment.language.grammar.ExperimentParser.error", "raise YaccError('Parse error in input. EOF')", "return None", r"ensures\.syntax-error"),
+                table_canary("ignored-rule-swallows-anything", edit_pattern("ExperimentLexer", "ws", r"\s+", "."), r"lex:main~.*(consumes-only-trivia|error)"),
+                contract_canary("none-parse-accepted", "pyab_experiment.experiment_evaluator.ExperimentEvaluator.recompile", "raise ParseError()", "return", r"ensures\.(accepted|switches)")]
+
+
+class C07(Prop):
+    id, title = "C07", "Every grammatical experiment compiles and evaluates"
+    min_obligations = 120
+    trusted_base = TB_GEN + ("rxvc DFA procedure", "sly (assumed)", "pydantic (assumed model)")
+    assumptions = (A_SLY_LEX, A_RX, A_SLY_YACC, A_PYDANTIC, A_SUBST, A_EXEC, A_ORACLE, A_INDUCTION,
+                   "stated precondition: every return statement has a positive total weight (C16 requires the ValueError otherwise), inputs are type-compatible, literals within the stated limits",
+                   "chain length and nesting depth are covered by the induction over constructors (depth-parametric blocks), not by a bound; CPython's own nesting limits bound A-subst")
+    explanation = "whole-word keywords (rxvc), constructors total on grammar values (model), generator validity: distinct parameters, identifiers inside tuples in scope, both layouts parse; identifiers that are Python keywords / skeleton names are a recorded known finding with an exclusion obligation"
+
+    def links(self, ctx):
+        return _lex() + _gram() + _models() + _gen() + [link_evaluator] + _misc("link_pipeline")
+
+    def canaries(self, ctx):
+        from vcore.links_lex import table_canary, edit_pattern
+        return [table_canary("keyword-without-boundary", edit_pattern("ExperimentLexer", "KW_IN", r"in\b", "in"), r"lex:main~.*(KW_IN|ID)\."),
+                gen_canary("duplicate-parameters", "fn_args = sorted(self._local_vars | self._conditional_ids)", "fn_args = self.local_vars + self.conditional_ids", r"generate/.*splitters=list"),
+                gen_canary("tuple-members-via-str", "members = [str(self._generate_term(member)) for member in term]", "members = [str(member) for member in term]", r"_generate_term/tuple")]
+
+
+class C09(Prop):
+    id, title = "C09", "Assignment depends only on salt, splitter values and the routed branch"
+    min_obligations = 25
+    trusted_base = TB_GEN
+    assumptions = (A_SUBST, A_EXEC, A_ORACLE, A_MODULAR,
+                   "'it does vary across splitter values and salts' is statistical (needs MD5 collision behaviour): only the structural half -- every splitter's str() and the salt are part of the hashed key -- is proved",
+                   "a missing declared field is a TypeError because no generated parameter has a default (A-exec)")
+    explanation = "key template == salt literal + ''.join(map(str,[sorted distinct splitters])) mentioning no other name; signature ends in **kwargs, parameters = splitters U condition fields; helper called by keyword; __call__ forwards **kwargs only"
+
+    def links(self, ctx):
+        return _gen() + [link_evaluator] + _misc("link_pipeline")
+
+    def canaries(self, ctx):
+        return [gen_canary("declaration-order-key", "return sorted(self._local_vars)", "return list(self._experiment_ast.splitting_fields)", r"generate_key_definition/.*\[|local_vars"),
+                gen_canary("experiment-id-in-key", "composite_key = f'{salt_def}+{fields_def}'", "composite_key = f'{salt_def}+{self._experiment_ast.id!r}+{fields_def}'", r"generate_key_definition/.*\["),
+                gen_canary("kwargs-dropped", "+ ['**kwargs']", "+ []", r"generate/")]
+
+
+class C10f(C10):
+    pass
+
+
+class C12(Prop):
+    id, title = "C12", "The published bucketing scheme is pinned across releases"
+    min_obligations = 20
+    trusted_base = ("z3", "CPython parser (parse oracle)", "independent MD5 (spec/md5_ref.py) for the known-answer stand-in")
+    assumptions = (A_STR, A_MD5, A_ORACLE, A_SUBST,
+                   "MD5HEX is uninterpreted: that the callee is hashlib.md5 is proved (call site), that hashlib.md5 is MD5 is only checked on known-answer vectors (bounded)")
+    explanation = "deterministic_proba == HEXVAL(first 8 hex digits of MD5HEX(UTF8(key)))/2^32 (exact formula, codec, slice, divisor) + key template == salt first, sorted distinct splitters, str()"
+
+    def links(self, ctx):
+        return [link_binning] + _gen() + _misc("link_pipeline")
+
+    def canaries(self, ctx):
+        tp = BIN + "deterministic_proba"
+        return [contract_canary("last-8-hex", tp, "digest[:8]", "digest[-8:]", r"ensures\.scheme"),
+                contract_canary("sha1", tp, "hashlib.md5(", "hashlib.sha1(", r"ensures\.scheme"),
+                contract_canary("latin-1", tp, "encode('utf-8')", "encode('latin-1')", r"ensures\.scheme|raises"),
+                gen_canary("salt-appended", "composite_key = f'{salt_def}+{fields_def}'", "composite_key = f'{fields_def}+{salt_def}'", r"generate_key_definition/.*\[")]
+
+
+class C13(Prop):
+    id, title = "C13", "Source text is inert data: literals cannot inject code"
+    min_obligations = 20
+    trusted_base = TB_GEN
+    assumptions = (A_REPR, A_SUBST, A_ORACLE,
+                   "every interpolation site of source-derived text in the generator is enumerated by the structural executor (all paths); raw quoting sites carry an all-strings z3 obligation, repr/str(list) sites rely on the assumed repr contract")
+    explanation = "raw-hole single-token obligations at every interpolation site; generated module == D(ast) with constants as the only literal-dependent parts; exec pipeline pinned"
+
+    def links(self, ctx):
+        return _gen() + [link_evaluator] + _misc("link_pipeline")
+
+    def canaries(self, ctx):
+        return [gen_canary("salt-hand-quoted", "repr(self._experiment_ast.salt)", "f\"'{self._experiment_ast.salt}'\"", r"salt-raw-quoting|generate_key_definition/.*\["),
+                gen_canary("term-hand-quoted", "return repr(term)", "return f\"'{term}'\"", r"_generate_term/str")]
+
+
+class C14(Prop):
+    id, title = "C14", "Generated Python source is equivalent to the in-memory evaluator"
+    min_obligations = 25
+    trusted_base = TB_GEN + ("black.format_str (assumed AST-preserving; the bounded module differential executes its output)",)
+    assumptions = (A_SUBST, A_EXEC, A_ORACLE, "black.format_str preserves the AST (assumed; every text used by the bounded differential is executed after formatting)")
+    explanation = "generate verified for both layouts against D.module (same D up to helper placement); generate_code == BLACK(GEN(PARSE(text), expose)) with the evaluator's generator class and arguments; recompile pipeline pinned; id capture is a recorded known finding with an exclusion obligation"
+
+    def links(self, ctx):
+        return _gen() + [link_evaluator] + _misc("link_pipeline")
+
+    def canaries(self, ctx):
+        return [gen_canary("exposed-layout-depth", "self._indent_depth = 1\n        else:", "self._indent_depth = 2\n        else:", r"generate/exposed"),
+                gen_canary("missing-import", "from functools import partial{self._newline}", "{self._newline}", r"render_topline"),
+                contract_canary("generate_code-other-flag", "pyab_experiment.utils.wraper_functions.generate_code", "expose_experiment_variant_function=expose_internal_fn", "expose_experiment_variant_function=True", r"ensures\.result==BLACK")]
+
+
+class C15(Prop):
+    id, title = "C15", "Evaluation is total over field values"
+    min_obligations = 8
+    trusted_base = ("z3", "CPython parser (parse oracle)", "assumed: str(v) is total for str/int/float/bool/None")
+    assumptions = (A_STR, A_MD5, A_ORACLE, "int values beyond CPython's 4300-digit str() limit are outside the domain")
+    explanation = "deterministic_proba has no exceptional path for any str (UTF-8 is total on well-formed str); the key expression is str() of each splitter value; equal printed values give equal keys (congruence lemma)"
+
+    def links(self, ctx):
+        return [link_binning] + _gen() + _misc("link_pipeline")
+
+    def canaries(self, ctx):
+        tp = BIN + "deterministic_proba"
+        return [contract_canary("ascii-codec", tp, "encode('utf-8')", "encode('ascii')", r"raises\.none:UnicodeEncodeError"),
+                contract_canary("int-of-odd-slice", tp, "int(digest[:8], 16)", "int(input_string[:8], 16)", r"raises\.none|ensures")]
+
+
+class C17(Prop):
+    id, title = "C17", "Concurrent compilation and evaluation are thread-safe"
+    level = "other"
+    min_obligations = 30
+    trusted_base = ("effect scan (syntactic frame analysis)", "z3 (frame VCs of recompile / parse_source)", "A-GIL")
+    assumptions = ("A-GIL: an attribute store is atomic; objects reachable only from one thread's frames are not accessed by other threads",
+                   "interleavings are NOT explored: what is proved is confinement (ownership of the lexer/parser objects, no class- or module-level store on the run-time path of sly, "
+                   "single publication of the compiled function after everything that can fail); data-race freedom and old-or-new visibility follow by a paper argument under A-GIL",
+                   "thread stress is a bounded stand-in / replay attempt only")
+    explanation = ("confinement obligations: parse_source passes to the engine only objects allocated in the call; every store in sly's tokenize/parse path targets a local or the instance; "
+                   "recompile writes only its own instance and publishes run_experiment once, last; no first-party module keeps mutable module-level state")
+
+    def links(self, ctx):
+        return [link_evaluator] + _misc("link_sly_confinement", "link_threads")
+
+    def canaries(self, ctx):
+        return [contract_canary("module-level-lexer", "pyab_experiment.utils.wraper_functions.parse_source", ["lexer = ExperimentLexer()\n", "def parse_source("], ["lexer = _LEXER\n", "_LEXER = ExperimentLexer()\n\n\ndef parse_source("], r"ownership"),
+                contract_canary("publish-before-exec", "pyab_experiment.experiment_evaluator.ExperimentEvaluator.recompile", "fn_name = ast.id\n", "fn_name = ast.id\n            setattr(self, 'run_experiment', None)\n", r"single-publication|publication-after|exception=>")]
+
+
+PROPS = {c.id: c() for c in (C01, C02, C03, C05, C06, C07, C08, C09, C10, C11, C12, C13, C14, C15, C16, C17, C18)}
